@@ -439,7 +439,7 @@ func equalRunes(a, b []rune) bool {
 
 // inProvedFragment re-implements the Lean predicate `inW` (lean/CaddyModel/C17/Fragment.lean):
 // plain words (also with placeholder groups `{x}`, `a{x}b`), non-CR white space, `… {⏎ … ⏎}` blocks, one-line double-quoted (escapes allowed) and backquoted strings, comments without backslash / trailing blank (not right
-// after `}` on the same line, not right before `{`). On this
+// before `{`). On this
 // fragment token preservation and idempotence are THEOREMS (Props.fmt_preserves_tokens_partial /
 // fmt_idempotent_partial); the model prints the same bit (field W:), so the two definitions are
 // compared on every case.
@@ -573,12 +573,9 @@ func inProvedFragment(x string) bool {
 			if len(sep) == 0 || sep[0] != '\n' || kind == kOpen {
 				return false
 			}
-		case kOpen: // a comment may follow the brace on the same line (Format moves it to the next line)
+		default: // after `{` or `}`: a comment may follow the brace on the same line (after `{` Format moves
+			// it to the next line, after `}` it writes the indentation in between)
 			if (nl < 1 && kind != kCmt) || kind == kOpen {
-				return false
-			}
-		default: // after `}`
-			if nl < 1 || kind == kOpen {
 				return false
 			}
 		}
